@@ -1,18 +1,31 @@
 #!/bin/bash
-# usage: confirm_seed.sh <PROP> [extra props to run]   (confirms an independently seeded change in /tmp/wt_<PROP>)
-P=$1; shift
-WT=/tmp/wt_$P
+# usage: confirm_seed.sh <PROP> <worktree dir> <seed id> [props to run, comma separated]
+# Confirms an independently seeded change left applied in a scratch worktree, then stores it as /verif/seeded/<seed id>/
+P=$1; WT=$2; SID=$3; PROPS=${4:-$P}
 cd $WT || exit 2
-echo "== $P: diff matches patch.diff?"; git diff -- circuitgraph | diff -q - seed_out/patch.diff >/dev/null && echo same || echo "DIFFERS (using worktree diff)"
-git diff -- circuitgraph > /tmp/seed_$P.diff
-echo "== tests with change"
-PYTHONDONTWRITEBYTECODE=1 timeout 900 /venv/bin/python -m pytest -q -p no:cacheprovider --timeout=900 --continue-on-collection-errors -rA 2>&1 | grep -E "^PASSED" | sed 's/ - .*//' | sort > /tmp/seed_${P}_passed.txt
-wc -l < /tmp/seed_${P}_passed.txt
-if [ ! -f /tmp/base_passed.txt ]; then (cd /repo && PYTHONDONTWRITEBYTECODE=1 timeout 900 /venv/bin/python -m pytest -q -p no:cacheprovider --timeout=900 --continue-on-collection-errors -rA 2>&1 | grep -E "^PASSED" | sed 's/ - .*//' | sort > /tmp/base_passed.txt); fi
-diff -q /tmp/base_passed.txt /tmp/seed_${P}_passed.txt && echo "passing set identical to /repo"
-echo "== demo with change"; PYTHONDONTWRITEBYTECODE=1 timeout 600 /venv/bin/python seed_out/demo.py > /tmp/seed_${P}_demo_with.txt 2>&1; echo "exit=$?"; tail -2 /tmp/seed_${P}_demo_with.txt | cut -c1-300
-git stash -q -- circuitgraph
-echo "== demo without change"; PYTHONDONTWRITEBYTECODE=1 timeout 600 /venv/bin/python seed_out/demo.py > /tmp/seed_${P}_demo_without.txt 2>&1; echo "exit=$?"; tail -1 /tmp/seed_${P}_demo_without.txt | cut -c1-200
-git stash pop -q
+git diff -- circuitgraph > /tmp/seed_$SID.diff
+diff -q /tmp/seed_$SID.diff seed_out/patch.diff > /dev/null && echo "worktree diff == patch.diff" || { echo "WORKTREE DIFF != patch.diff"; git diff --stat -- circuitgraph; }
+echo "== $SID: tests with change"
+PYTHONDONTWRITEBYTECODE=1 timeout 900 /venv/bin/python -m pytest -q -p no:cacheprovider --timeout=900 --continue-on-collection-errors -rA 2>&1 | grep -E "^PASSED" | sed 's/ - .*//' | sort > /tmp/seed_${SID}_passed.txt
+(cd /repo && PYTHONDONTWRITEBYTECODE=1 timeout 900 /venv/bin/python -m pytest -q -p no:cacheprovider --timeout=900 --continue-on-collection-errors -rA 2>&1 | grep -E "^PASSED" | sed 's/ - .*//' | sort > /tmp/base_passed.txt)
+echo "passed: $(wc -l < /tmp/seed_${SID}_passed.txt) (repo: $(wc -l < /tmp/base_passed.txt))"; diff -q /tmp/base_passed.txt /tmp/seed_${SID}_passed.txt && echo "passing set identical to /repo"
+echo "== demo with change"; PYTHONDONTWRITEBYTECODE=1 timeout 600 /venv/bin/python seed_out/demo.py > /tmp/seed_${SID}_with.txt 2>&1; echo "exit=$?"; tail -1 /tmp/seed_${SID}_with.txt | cut -c1-300
+git apply -R /tmp/seed_$SID.diff || { echo "cannot reverse-apply"; exit 2; }
+echo "== demo without change"; PYTHONDONTWRITEBYTECODE=1 timeout 600 /venv/bin/python seed_out/demo.py > /tmp/seed_${SID}_without.txt 2>&1; echo "exit=$?"; tail -1 /tmp/seed_${SID}_without.txt | cut -c1-200
+git apply /tmp/seed_$SID.diff
 echo "== my checks against the change"
-cd /verif && tools/mutants.py --patch /tmp/seed_$P.diff --prop ${*:-$P}
+cd /verif && tools/mutants.py --patch /tmp/seed_$SID.diff --prop $PROPS
+mkdir -p /verif/seeded/$SID && cp $WT/seed_out/patch.diff $WT/seed_out/demo.py $WT/seed_out/notes.md /verif/seeded/$SID/ && [ -d $WT/seed_out/pysat ] && cp -r $WT/seed_out/pysat /verif/seeded/$SID/
+/venv/bin/python - "$SID" "$WT" <<'PY'
+import re,sys,os
+sid,wt=sys.argv[1],sys.argv[2]
+f=f'/verif/seeded/{sid}/demo.py'
+s=open(f).read()
+s=s.replace(f'"{wt}/seed_out"', '__import__("os").path.dirname(__import__("os").path.abspath(__file__))').replace(f"'{wt}/seed_out'", '__import__("os").path.dirname(__import__("os").path.abspath(__file__))')
+s=s.replace(f'"{wt}"', '__import__("os").environ.get("CG_REPO", "/repo")').replace(f"'{wt}'", '__import__("os").environ.get("CG_REPO", "/repo")')
+s=re.sub(r'cg\.__file__\.startswith\("%s/?"\)' % re.escape(wt), 'cg.__file__.startswith(__import__("os").path.realpath(__import__("os").environ.get("CG_REPO", "/repo")) + "/")', s)
+open(f,'w').write(s)
+left=[l for l in s.splitlines() if wt in l and not l.lstrip().startswith('#') and 'Run' not in l]
+print("stored; remaining hard-coded path lines:", left[:3])
+PY
+find /verif/seeded -name "__pycache__" -prune -exec rm -rf {} \;
